@@ -180,8 +180,13 @@ def gen_cases(rng, tier):
     return cases
 
 
+def _is_x(c):
+    """oracle-only families are recognised by their top-level code"""
+    return c["in"][0] >= 100
+
+
 def nontrivial(c):
-    if c["kind"].startswith("x-"):
+    if _is_x(c):
         return True
     return any(d for d in c["in"][4]) or any(o[0] == 1 for _, ops in c["in"][3] for o in ops)
 
@@ -791,7 +796,7 @@ def impl_setup():
 def impl(c):
     import asyncio
 
-    if c["kind"].startswith("x-"):
+    if _is_x(c):
         return _impl_extra(c)
     api, ps, mo, blocks, cs = c["in"]
     if api == 0:
@@ -804,8 +809,8 @@ def impl(c):
 
 
 def model_pair(c, obs):
-    if obs[0][8]:
-        return c["in"], [77]
+    if obs[0][8] or (obs[2] and obs[2].get("term_cancel")):
+        return c["in"], [77]  # pool-wide invalidation / cancelled inside terminate(): outside the model
     return c["in"], obs[0]
 
 
@@ -842,7 +847,7 @@ def _safety(blocks, main, extra, what="async"):
 
 def oracle(c, obs):
     v = _oracle(c, obs)
-    if v and not c["kind"].startswith("x-") and obs[2]:
+    if v and not _is_x(c) and obs[2]:
         if obs[2].get("reset_cancel"):
             v += " [cancelled inside the pool's rollback-on-return]"
         if obs[2].get("term_cancel"):
@@ -851,7 +856,7 @@ def oracle(c, obs):
 
 
 def _oracle(c, obs):
-    if c["kind"].startswith("x-"):
+    if _is_x(c):
         return _oracle_extra(c, obs)
     main, other, extra = obs
     api, ps, mo, blocks, cs = c["in"]
@@ -869,11 +874,11 @@ def match_finding(c, what):
         return "C29-cancel-in-unshielded-close-needs-gc"
     if in_reset and ("after clean-up and gc" in what or "after the task ended and garbage was collected" in what):
         return "C29-session-cancel-in-reset-leaks-slot"
-    if c["kind"].startswith("x-"):
+    if _is_x(c):
         return None
     ncancel = sum(1 for d in c["in"][4] if d)
     if ncancel >= 2 and "[second cancellation inside terminate()]" in what:
-        return "C29-second-cancel-in-terminate-pools-dead-connection"
+        return "C29-second-cancel-in-terminate-races-graceful-close"
     return None
 
 
@@ -915,7 +920,7 @@ def _extra_cases(rng, tier):
         for top, prog in pick:
             # sel: [-1] = every position; otherwise that many seeded positions
             sel = [-1] if thorough else [6, rng.randrange(1 << 20)]
-            cases.append({"in": [top, prog, sel], "kind": fam})
+            cases.append({"in": [top, prog, sel], "kind": fam, "model": False})
     return cases
 
 
